@@ -84,6 +84,31 @@ Theorem C07_server_oversize_chunked : forall parseTr cfg cs elast rest, serverMa
 Proof. exact serve_oversize_chunked. Qed.
 Print Assumptions C07_server_oversize_chunked.
 
+(* Request.ContinueReadBody (Request.ReadLimitBody, the server, with or without Expect: 100-continue):
+   the limit guard precedes the multipart pre-parse branch, so a Content-Length above the limit is
+   ErrBodyTooLarge whatever the Content-Type and the pre-parse setting, and a pre-parsed form has
+   at most L bytes; in the server: error response + close, no dispatch. *)
+Theorem C07_multipart_preparse_oversize : forall parseTr preParse isForm formOk cl L b, L > 0 -> cl > L ->
+  continueReadBody parseTr preParse isForm formOk cl L b = RQBody (BErr EBodyTooLarge [] 0).
+Proof. exact continue_oversize. Qed.
+Print Assumptions C07_multipart_preparse_oversize.
+Theorem C07_multipart_preparse_bounded : forall parseTr preParse isForm formOk cl L b, L > 0 -> wf_bytes b ->
+  match continueReadBody parseTr preParse isForm formOk cl L b with
+  | RQBody (BOk body _ _) => blen body <= L
+  | RQForm form _ => blen form <= L
+  | _ => True
+  end.
+Proof. exact continue_bounded. Qed.
+Print Assumptions C07_multipart_preparse_bounded.
+Theorem C07_server_preparse_oversize : forall parseTr preParse isForm formOk cfg cl b, cl > serverMaxBody cfg ->
+  serveContinueReadBody parseTr preParse isForm formOk cfg cl b = SAnswerClose StatusBadRequest.
+Proof. exact serve_continue_oversize. Qed.
+Print Assumptions C07_server_preparse_oversize.
+Theorem C07_server_preparse_bounded : forall parseTr preParse isForm formOk cfg cl b body rest, wf_bytes b ->
+  serveContinueReadBody parseTr preParse isForm formOk cfg cl b = SDispatch body rest -> blen body <= serverMaxBody cfg.
+Proof. exact serve_continue_bounded. Qed.
+Print Assumptions C07_server_preparse_bounded.
+
 (* The *WithLimit decompression helpers, for EVERY stream a decoder may yield (and whether it
    ends cleanly or in an error): the result is the whole inflated data and has at most L bytes,
    or an error; more than L inflated bytes is always ErrBodyTooLarge; at most L + 1 bytes are
